@@ -434,7 +434,11 @@ func (x *X) specCall(env *SpecEnv, se *SpecExpr, call *ast.CallExpr) Value {
 	case *ast.Ident:
 		name = f.Name
 	case *ast.SelectorExpr:
-		// method-style spec call, e.g. self.Len(): only pure inline functions
+		// pkg.specfn(...): spec functions live in one global namespace; the qualifier is documentation
+		if _, isPkg := f.X.(*ast.Ident); isPkg && x.isSpecFuncName(f.Sel.Name) {
+			name = f.Sel.Name
+			break
+		}
 		fail("spec: method calls are not supported in %q", se.Text)
 	}
 	arg := func(i int) Value { return x.specGo(env, se, call.Args[i]) }
